@@ -218,7 +218,7 @@ class UTPM(Ring, RawAlgorithmsMixIn):
 
 
     def get_flat(self):
-        return UTPM(self.data.reshape(self.data.shape[:2] + (numpy.prod(self.data.shape[2:]),) ))
+        return UTPM(self.data.reshape(self.data.shape[:2] + (int(numpy.prod(self.data.shape[2:], dtype=int)),) ))
 
     flat = property(get_flat)
 
@@ -1247,7 +1247,8 @@ class UTPM(Ring, RawAlgorithmsMixIn):
         return xbar
 
     def prod(self):
-        x = self
+        # product over all elements, as numpy.prod without axis argument
+        x = self.flat
         D,P = x.data.shape[:2]
         y = UTPM(numpy.zeros((D,P), dtype=x.data.dtype))
         y.data[0,:] = 1.
@@ -1264,6 +1265,12 @@ class UTPM(Ring, RawAlgorithmsMixIn):
         else:
             xbar, = out
 
+        # work on flattened views (prod runs over all elements)
+        x_shp = x.shape
+        x = x.flat
+        xbar_in = xbar
+        xbar = x.zeros_like()
+
         # forward and store intermediates
         z = x.zeros_like()
         zbar = x.zeros_like()
@@ -1278,7 +1285,8 @@ class UTPM(Ring, RawAlgorithmsMixIn):
             zbar[i-1] += zbar[i]*x[i]
             xbar[i]   += zbar[i]*z[i-1]
         xbar[0] += zbar[0]
-        return xbar
+        xbar_in += xbar.reshape(x_shp)
+        return xbar_in
 
         # z = y.copy()
         # zbar = ybar.copy()
